@@ -1,5 +1,7 @@
 //! Untrusted-input generators for C16: structured mutations of valid JSON, XML and CMS
-//! plus random bytes, as `dec <kind> <hex>` ops.
+//! plus random bytes, as `dec <kind> <hex>` ops; and the `strfn <name> x<hex-utf8>` ops: a
+//! registry of krill's own string-taking helper functions on request paths, each called
+//! under `catch_unwind` (the search side of the panic-site census, `Props/C16Src.lean`).
 
 use kharness::Rng;
 use serde_json::{json, Value};
@@ -292,4 +294,210 @@ pub fn dec_case(ctx: &Ctx, r: &mut Rng, seeds: &[(&'static str, Value)]) -> Stri
 
 pub fn json_seeds() -> Vec<(&'static str, Value)> {
     seeds_json()
+}
+
+
+// ------------------------------------------------------------------ strfn: krill's own string helpers
+
+use std::str::FromStr;
+use krill::commons::util::AllowedUri;
+
+/// An authority string as it is (the trait's provided method is the only public way to the
+/// private `commons::util::seems_global_uri`).
+struct RawAuthority(String);
+
+impl AllowedUri for RawAuthority {
+    fn authority(&self) -> &str {
+        &self.0
+    }
+}
+
+/// The registry.  `seems_global_uri*`: the private helper behind `CsrInfo::global_uris()`
+/// (SIA URIs of a client-supplied CSR: RFC 6492 issue requests, child import) – on the raw
+/// string, and the way a client reaches it: through `uri::Rsync` / `uri::Https` built from the
+/// string when it parses.  The others are krill's own `FromStr`/`From<&str>` implementations
+/// used for path segments, JSON map keys and text notations that `dec` does not already cover
+/// (ROA deltas, ASPA and BGPsec text forms and resource sets are `dec roa-str|aspa-str|
+/// bgpsec-key|resources`).
+pub const STRFNS: &[&str] = &[
+    "seems_global_uri",
+    "seems_global_uri_rsync",
+    "seems_global_uri_https",
+    "roa_aggregate_key",
+    "roa_json_key",
+    "roa_payload",
+    "typed_prefix",
+    "as_number",
+    "announcement",
+    "krill_version",
+    "object_name",
+    "ca_handle",
+    "rcn",
+    "token",
+    "permission",
+];
+
+fn okerr<T, E>(r: Result<T, E>) -> String {
+    if r.is_ok() { "ok ok".into() } else { "ok err".into() }
+}
+
+fn strfn_call(name: &str, s: &str) -> Option<String> {
+    Some(match name {
+        "seems_global_uri" => format!("ok {}", RawAuthority(s.to_string()).seems_global_uri()),
+        "seems_global_uri_rsync" => match rpki::uri::Rsync::from_str(&format!("rsync://{s}/module/")) {
+            Err(_) => "ok reject".into(),
+            Ok(u) => format!("ok {} auth=x{}", AllowedUri::seems_global_uri(&u), hex::encode(u.authority())),
+        },
+        "seems_global_uri_https" => match rpki::uri::Https::from_str(&format!("https://{s}/rrdp/notification.xml")) {
+            Err(_) => "ok reject".into(),
+            Ok(u) => format!("ok {} auth=x{}", AllowedUri::seems_global_uri(&u), hex::encode(u.authority())),
+        },
+        "roa_aggregate_key" => match krill::verif::ca_pure::roa_aggregate_key_parse(s) {
+            None => "ok none".into(),
+            Some((asn, None)) => format!("ok some {asn} -"),
+            Some((asn, Some(g))) => format!("ok some {asn} {g}"),
+        },
+        "roa_json_key" => okerr(serde_json::from_value::<krill::api::roa::RoaPayloadJsonMapKey>(Value::String(s.to_string()))),
+        "roa_payload" => okerr(krill::api::roa::RoaPayload::from_str(s)),
+        "typed_prefix" => okerr(krill::api::roa::TypedPrefix::from_str(s)),
+        "as_number" => okerr(krill::api::roa::AsNumber::from_str(s)),
+        "announcement" => okerr(krill::api::bgp::Announcement::from_str(s)),
+        "krill_version" => okerr(krill::commons::version::KrillVersion::from_str(s)),
+        "object_name" => {
+            let n = krill::api::ca::ObjectName::from(s);
+            let _ = n.to_string();
+            "ok ok".into()
+        }
+        "ca_handle" => okerr(rpki::ca::idexchange::CaHandle::from_str(s)),
+        "rcn" => {
+            let n = rpki::ca::provisioning::ResourceClassName::from(s);
+            let _ = n.to_string();
+            "ok ok".into()
+        }
+        "token" => {
+            let t = krill::api::admin::Token::from(s.trim());
+            let _ = t.to_string();
+            "ok ok".into()
+        }
+        "permission" => okerr(krill::daemon::http::auth::Permission::from_str(s)),
+        _ => return None,
+    })
+}
+
+/// `strfn <name> x<hex of the UTF-8 argument>` => `ok <result kind> …` | `panic <location>`
+pub fn op_strfn(w: &[&str]) -> Option<String> {
+    let name = *w.get(1)?;
+    let bytes = hex::decode(w.get(2)?.strip_prefix('x')?).ok()?;
+    let s = String::from_utf8(bytes).ok()?;
+    if !STRFNS.contains(&name) {
+        return None;
+    }
+    Some(match crate::ops::guarded(|| strfn_call(name, &s)) {
+        Err(loc) => format!("panic {loc}"),
+        Ok(r) => r?,
+    })
+}
+
+/// Host shapes for authorities: names, IPv4/IPv6 literals (valid and just not), brackets,
+/// characters of 2, 3 and 4 bytes, characters whose lower/upper case has another length.
+const HOSTS: &[&str] = &[
+    "", "localhost", "LOCALHOST", "LocalHost", "localhostx", "xlocalhost", "example.org", "a", "rpki.example.net",
+    "127.0.0.1", "0.0.0.0", "1.2.3.4", "255.255.255.255", "256.1.1.1", "01.2.3.4", "1.2.3", "1.2.3.4.5", "1.2.3.", ".1.2.3.4",
+    "1..2.3", "999.1.1.1", "1.2.3.0004", "::", "::1", ":::", "2001:db8::1", "fe80::1", "1:2:3:4:5:6:7:8", "1:2:3:4:5:6:7:8:9",
+    "1:2:3:4:5:6:7::", "::2:3:4:5:6:7:8", "::ffff:1.2.3.4", "1:2:3:4:5:6:1.2.3.4", "1:2:3:4:5:6:7:1.2.3.4", "1.2.3.4::",
+    "::1.2.3", "12345::", "g::1", "ABCD:ef01::", "[::1]", "[2001:db8::1]", "[", "]", "[]", "[1.2.3.4]", "[::1", "::1]",
+    "\u{e9}", "h\u{e9}", "\u{65e5}\u{672c}", "\u{1d518}", "\u{212a}", "\u{130}", "LOCALHO\u{17f}T", "local\u{2011}host", "%6cocalhost",
+];
+
+/// What follows the host: nothing, an empty port, ports, junk, further colons, multi-byte
+/// characters right after / around the last colon.
+const PORTS: &[&str] = &[
+    "", ":", ":873", ":0", ":443", ":65536", ":99999999999999999999", ":x", "::", ":8:", ":8:9", ":\u{e9}", ":8\u{e9}", "\u{e9}:",
+    "\u{e9}:8", ":\u{1d518}", "\u{65e5}:", ": ", ":-1", ":+1",
+];
+
+fn authority(r: &mut Rng) -> String {
+    let mut s = match r.below(12) {
+        0..=6 => format!("{}{}", ps(r, HOSTS), ps(r, PORTS)),
+        7 => format!("{}{}", ps(r, PORTS), ps(r, HOSTS)),
+        8 => format!("{}{}{}{}", ps(r, HOSTS), ps(r, PORTS), ps(r, HOSTS), ps(r, PORTS)),
+        9 => ":".repeat(r.range(1, 9) as usize),
+        10 => format!("{}{}", "a".repeat(r.range(250, 5000) as usize), ps(r, PORTS)),
+        _ => format!("user@{}{}", ps(r, HOSTS), ps(r, PORTS)),
+    };
+    // a small edit at a random character position
+    if r.chance(1, 3) && !s.is_empty() {
+        let idx: Vec<usize> = s.char_indices().map(|x| x.0).chain(std::iter::once(s.len())).collect();
+        let at = idx[r.below(idx.len() as u64) as usize];
+        match r.below(3) {
+            0 => s.insert_str(at, ps(r, &[":", ".", "[", "]", "0", "f", "\u{e9}", "\u{1d518}", "%", "/", " "])),
+            1 if at < s.len() => {
+                let c = s[at..].chars().next().unwrap();
+                s.replace_range(at..at + c.len_utf8(), "");
+            }
+            _ => s.truncate(at),
+        }
+    }
+    s
+}
+
+const KEY_STRINGS: &[&str] = &[
+    "AS64496", "AS64496-1", "AS0", "AS4294967295", "AS4294967296", "AS", "A", "AS-", "AS1-", "AS1-2-3", "AS\u{e9}", "A\u{e9}1", "as1",
+    "AS 1", "AS+1", "AS1-+2", "\u{e9}", "AS1\u{e9}", "AS1-\u{e9}", "10.0.0.0/8 => 64496", "10.0.0.0/8-24 => 64496", "::/0-128 => 0",
+    "10.0.0.0/8=>64496", "10.0.0.0/8 => AS64496", "10.0.0.1/8 => 1", "10.0.0.0/33 => 1", "::/129 => 1", "10.0.0.0/8-7 => 1",
+    "10.0.0.0/8-\u{e9} => 1", "\u{e9}/8 => 1", "10.0.0.0/\u{e9} => 1", "10.0.0.0/8 => \u{e9}", "=>", "=> 1", "/ => ", "10.0.0.0/8", "::/0",
+    "1.2.3.4/32", "1.2.3/8", "0.24.0-rc1", "0.24.0", "0.24", "0.24.0-rc", "0.24.0-r\u{e9}1", "0.24.0-rc\u{e9}", "0.24.0-\u{e9}c1", "0.24.0-bis",
+    "1.2.3-rc18446744073709551616", "..", "a.b.c", "ca", "ca/child", "a\\b", "a b", "", "ta", "testbed", "login", "ca-admin", "Login",
+    "Bearer x", " x ", "x.cer", "a.mft", "../x.cer",
+];
+
+fn key_string(r: &mut Rng) -> String {
+    match r.below(6) {
+        0..=2 => ps(r, KEY_STRINGS).to_string(),
+        3 => ps(r, ODD_STRINGS).to_string(),
+        4 => format!("{}{}", ps(r, KEY_STRINGS), ps(r, ODD_STRINGS)),
+        _ => {
+            let mut s = ps(r, KEY_STRINGS).to_string();
+            let idx: Vec<usize> = s.char_indices().map(|x| x.0).chain(std::iter::once(s.len())).collect();
+            let at = idx[r.below(idx.len() as u64) as usize];
+            s.insert_str(at, ps(r, &["-", "=>", "/", ".", "\u{e9}", " ", "rc", "AS", "\u{1d518}"]));
+            s
+        }
+    }
+}
+
+fn strfn_line(name: &str, arg: &str) -> String {
+    format!("strfn {name} x{}", hex::encode(arg.as_bytes()))
+}
+
+/// The fixed part: every host shape with every port shape through the three
+/// `seems_global_uri` entries, every key string through every other entry.
+pub fn strfn_fixed() -> Vec<String> {
+    let mut v = Vec::new();
+    for h in HOSTS {
+        for p in PORTS {
+            let a = format!("{h}{p}");
+            for f in &STRFNS[..3] {
+                v.push(strfn_line(f, &a));
+            }
+        }
+    }
+    for k in KEY_STRINGS {
+        for f in &STRFNS[3..] {
+            v.push(strfn_line(f, k));
+        }
+    }
+    v
+}
+
+/// One generated `strfn` op.
+pub fn strfn_case(r: &mut Rng) -> String {
+    if r.chance(3, 5) {
+        let f = STRFNS[r.below(3) as usize];
+        strfn_line(f, &authority(r))
+    } else {
+        let f = STRFNS[3 + r.below(STRFNS.len() as u64 - 3) as usize];
+        let a = if r.chance(1, 8) { authority(r) } else { key_string(r) };
+        strfn_line(f, &a)
+    }
 }
